@@ -22,6 +22,7 @@ def run(ctx):
     shared.settings_runner_tables(ctx, "C12-R3")
     shared.qpack_runner_tables(ctx, "C12-R3")
     shared.local_settings_run_table(ctx, "C12-R3")
+    shared.settings_with_frame_table(ctx, "C12-R3")
     ctx.rule("C12-R4", "worker handlers: duplicate critical streams, first request frame rules, stream-level refusals")
     shared.handle_uni_table(ctx, "C12-R4")
     shared.handle_bi_table(ctx, "C12-R4")
